@@ -381,8 +381,12 @@ pub fn run_with(rng: &mut Rng, n: usize, rep: &mut Report, lines: &mut Option<Ve
                             if who != wallet { rep.fail("C08 kamino_deposit succeeded for a signer who is not the account's authority".to_string()); }
                             if state != BankOperationalState::Operational { rep.fail(format!("C14 kamino_deposit succeeded on a bank in state {:?}", state as u8)); }
                             if stale { rep.bump("deposit_on_stale_reserve_ok"); }
-                            if skew.abs() >= 2 {
-                                rep.fail(format!("C20 kamino_deposit succeeded although the venue credited {} collateral where the conversion announces {} (off by {}): the after-the-fact check did not notice", got, exp_col, skew));
+                            // (judged against marginfi's OWN announcement — its conversion of the deposit on the reserve as it was, which can
+                            // differ from the exact quotient by a unit of precision; what it tolerates is one unit around that)
+                            if let Ok(announced) = r0.liquidity_to_collateral(amount) {
+                                if (got - announced as i128).abs() >= 2 {
+                                    rep.fail(format!("C20 kamino_deposit succeeded although the venue credited {} collateral where marginfi's own conversion announces {} (exact {}): the after-the-fact check did not notice", got, announced, exp_col));
+                                }
                             }
                             if sh1 - sh0 != got << 48 || bits(bank1.total_asset_shares) - bits(bank0.total_asset_shares) != got << 48 {
                                 rep.fail(format!("C02 kamino_deposit of {}: the obligation gained {} collateral but the position gained {} and the bank total {} shares (x 2^-48)", amount, got, sh1 - sh0, bits(bank1.total_asset_shares) - bits(bank0.total_asset_shares)));
@@ -470,7 +474,11 @@ pub fn run_with(rng: &mut Rng, n: usize, rep: &mut Report, lines: &mut Option<Ve
                             if who != wallet { rep.fail("C08 kamino_withdraw succeeded for a signer who is not the account's authority (no receivership)".to_string()); }
                             if state == BankOperationalState::Paused { rep.fail("C14 kamino_withdraw succeeded on a paused bank".to_string()); }
                             if sk_c != 0 { rep.fail(format!("C20 kamino_withdraw succeeded although the venue took {} collateral more / less than asked ({})", sk_c, gone)); }
-                            if sk_l.abs() >= 2 { rep.fail(format!("C20 kamino_withdraw succeeded although the venue released {} tokens more / less than the conversion announces", sk_l)); }
+                            if let Ok(announced) = r0.collateral_to_liquidity(gone.max(0) as u64) {
+                                if (released - announced as i128).abs() >= 2 {
+                                    rep.fail(format!("C20 kamino_withdraw succeeded although the venue released {} tokens where marginfi's own conversion of {} collateral announces {}", released, gone, announced));
+                                }
+                            }
                             let exp_c: i128 = if all { sh0 >> 48 } else { amount as i128 };
                             if gone != exp_c {
                                 rep.fail(format!("C02 kamino_withdraw (all = {}): the obligation lost {} collateral, the position was asked for {}", all, gone, exp_c));
